@@ -41,6 +41,9 @@ Independent oracles (no use of the model, no use of the real uptodate objects), 
     result_dep on a provider whose record holds no result; a missing target) or a provider of it was executed in the first run
     AFTER the task's own last success in that run (lazy getargs: the consumer was checked before) or again in the repeated run
     before the task was checked (a chain of such consumers settles one level per run): `c04-repeat-run-reexecuted`.
+
+Family `calcdep` (this file, second half; model: coq/Model/CalcDep.v): dependencies a task gets from the values of other tasks
+(`calc_dep`) -- see the comment above C() for operations, encoding and the three oracles.
 """
 import contextlib, io, json, os
 import common
@@ -610,6 +613,568 @@ def shrink_g(ctx, out):
         case['history_coq'] = g_coq(small)
 
 
+# ================================================================== family `calcdep` (model: coq/Model/CalcDep.v)
+# Dependencies a task gets from the VALUES of other tasks (`calc_dep`), read when the task is dispatched.  Run-level
+# histories over 3 tasks through DoitMain in-process, exactly like the family `getargs`, with the operation
+#     ('CDef', t, d)   d = file_dep, targets, uptodate (bool / None / callable / command / run_once / config_changed), values, result,
+#                          task_dep = [t..], calc_dep = [t..] and ret = what the task's first action returns for the tasks that
+#                          name it in calc_dep: dict(file_dep=[f..] | None, task_dep=[t..] | None, uptodate=0 [False] | 1 [True] | 2 [None] | None)
+# instead of GDef.  Encoding compared with `cobserve (crun ..)` of CalcDep.v (serial runs only): as for getargs, then -6 and, per
+# task, the three calc keys of its saved values ('file_dep' as a bitmask of file numbers, 'task_dep' as a bitmask of task numbers,
+# 'uptodate' as its code; -2 absent).
+# Independent oracles (no model, no DB), on the reporter's event order; the shadow keeps, per task, what its last successful
+# execution returned for its consumers (cur_ret) and saw (checker, EFFECTIVE file_dep = declared + what its providers handed
+# over then, their states, the effective uptodate items):
+#   * shadow      : at reporter.get_status(t) the effective definition is declared + cur_ret of every calc_dep provider; if every
+#                   condition of C04 holds on it and the runner executes t: `c04-unchanged-rerun-calcdep`;
+#   * repeat      : a run repeated immediately after a fully successful one must not execute a task whose effective definition has a
+#                   file_dep / an evaluated item (no item false by definition, no missing target): `c04-repeat-run-reexecuted-calcdep`;
+#   * edit        : a task skipped as up-to-date although an effective file_dep (declared or calculated) is modified by the checker's rule
+#                   w.r.t. what its last successful execution saw, or the effective set differs, or another checker is configured:
+#                   `c04-calcdep-edit-not-rebuilt`.
+def C(fd=(), tg=(), utd=(), values=(), result=None, task_dep=(), calc_dep=(), ret=None):
+    r = None
+    if ret is not None:
+        r = dict(file_dep=None if ret.get('file_dep') is None else list(ret['file_dep']),
+                 task_dep=None if ret.get('task_dep') is None else list(ret['task_dep']), uptodate=ret.get('uptodate'))
+    return dict(file_dep=list(fd), targets=list(tg), uptodate=[tuple(u) for u in utd], values=[tuple(x) for x in values],
+                result=result, task_dep=list(task_dep), calc_dep=list(calc_dep), ret=r)
+
+
+EMPTY_C = C()
+PRE_C = ('From DoitV Require Import Base Status History CalcDep.\nOpen Scope Z_scope.\n'
+         'Definition md5o (c : N) : N := c.\n'
+         'Definition sizeo (c : N) : Z := match c with 0%N => 4 | 1%N => 4 | 2%N => 2 | 3%N => 4 | 4%N => 0 | _ => 7 end.\n'
+         'Definition cobsv (l : list cop) : list Z := cobserve [0;1;2]%N [0;1;2]%N (crun md5o sizeo current l).\n')
+RET_UTD = {0: [False], 1: [True], 2: [None]}
+RET_ITEM = {0: ('bool', False), 1: ('bool', True), 2: ('none',)}
+
+
+def norm_c(h):
+    res = []
+    for o in h:
+        o = tuple(o)
+        if o[0] == 'CDef':
+            d = o[2]
+            o = ('CDef', o[1], C(d['file_dep'], d['targets'], d['uptodate'], d['values'], d['result'], d['task_dep'], d['calc_dep'], d['ret']))
+        res.append(o)
+    return res
+
+
+def calc_order(d):
+    """calc_dep in the iteration order of the real set task.calc_dep (the order in which the values are merged)"""
+    if len(set(d['calc_dep'])) < 2:
+        return list(dict.fromkeys(d['calc_dep']))
+    from doit.task import Task
+    return [int(n[1:]) for n in Task('x', None, calc_dep=['T%d' % p for p in d['calc_dep']]).calc_dep]
+
+
+def cdef_coq(d):
+    vals = list(d['values'])
+    r = d['ret']
+    if r is not None:       # the three keys are user keys 49 / 50 / 51 of the model
+        if r['file_dep'] is not None:
+            vals.append((49, c03.mask(r['file_dep'])))
+        if r['task_dep'] is not None:
+            vals.append((50, c03.mask(r['task_dep'])))
+        if r['uptodate'] is not None:
+            vals.append((51, r['uptodate']))
+    return '{| cd_def := %s; cd_task_dep := [%s]; cd_calc := [%s] |}' % (
+        c03.def_coq(dict(d, values=vals)), '; '.join(map(str, d['task_dep'])), '; '.join(map(str, calc_order(d))))
+
+
+def c_coq(h):
+    order = list(range(NT))
+    out = []
+    for o in h:
+        k = o[0]
+        if k == 'Order':
+            order = list(o[1])
+        elif k == 'CDef':
+            out.append('CSetDef %d %s' % (o[1], cdef_coq(o[2])))
+        elif k == 'Run':
+            out.append('CRun [%s] [%s]' % ('; '.join(map(str, sel_of(o, order))), '; '.join(map(str, o[4]))))
+        elif k == 'Forget':
+            out.append('CP (Remove %d)' % o[1])
+        else:
+            out.append('CP (%s)' % c03.op_coq(o))
+    return 'cobsv ([%s]%%N)' % '; '.join(out)
+
+
+class CShadow:
+    """per task: what its last successful execution returned for its consumers and what it saw; never looks at the DB"""
+    def __init__(self):
+        self.last_ok = {}
+        self.cur_ret = {}           # what the record of a task holds under the three calc keys (absent: no record)
+        self.fresh = True
+
+    def effective(self, defs, t):
+        """(file_dep, items) of t once the values of its calc_dep providers are merged"""
+        d = defs[t]
+        fd, items = set(d['file_dep']), list(d['uptodate'])
+        for p in dict.fromkeys(d['calc_dep']):
+            r = self.cur_ret.get(p)
+            if r:
+                fd |= set(r['file_dep'] or ())
+                if r['uptodate'] is not None:
+                    items.append(RET_ITEM[r['uptodate']])
+        return fd, items
+
+    def item(self, u, sn):
+        k = u[0]
+        if k in ('bool', 'call', 'cmd'):
+            return u[1]
+        if k == 'none':
+            return None
+        if sn is None:
+            return False
+        if k == 'run_once':
+            return ('run_once',) in sn['items']
+        if k == 'config':
+            saved = [x[1] for x in sn['items'] if x[0] == 'config']
+            return bool(saved) and saved[-1] == u[1]
+        raise ValueError(u)
+
+    def complete(self, w, defs, t):
+        """the hypotheses of C04 hold for t right now"""
+        sn = self.last_ok.get(t)
+        fd, its = self.effective(defs, t)
+        items = [self.item(u, sn) for u in its]
+        if not all(x is not False for x in items):
+            return False
+        if not (fd or any(x is not None for x in items)):
+            return False
+        if not all(f in w.fsview for f in defs[t]['targets']):
+            return False
+        if sn is None:
+            return not fd
+        return (sn['ck'] == w.ck and set(sn['file_dep']) == fd and
+                all(f in w.fsview and c03.Shadow.unmodified(w.ck, sn['view'][f], w.fsview[f]) for f in fd))
+
+    def must_run(self, w, defs, t):
+        """a documented not-up-to-date condition about the FILES holds for t right now"""
+        sn = self.last_ok.get(t)
+        fd, _ = self.effective(defs, t)
+        if sn is None:
+            return bool(fd)
+        if sn['ck'] != w.ck or set(sn['file_dep']) != fd:
+            return True
+        return any(f not in w.fsview or not c03.Shadow.unmodified(w.ck, sn['view'][f], w.fsview[f]) for f in fd)
+
+    def success(self, w, defs, t):
+        fd, its = self.effective(defs, t)
+        self.last_ok[t] = dict(ck=w.ck, file_dep=sorted(fd), view={f: w.fsview[f] for f in fd if f in w.fsview}, items=its)
+        self.cur_ret[t] = defs[t]['ret']
+
+    def gone(self, t):
+        self.last_ok.pop(t, None)
+        self.cur_ret.pop(t, None)
+
+
+def never_uptodate_c(w, defs, sh, t):
+    fd, items = sh.effective(defs, t)
+    if not fd and all(u[0] == 'none' or u == ('call', None) for u in items):
+        return True
+    if any(u in NEVER_ITEMS for u in items):
+        return True
+    return any(f not in w.fsview for f in defs[t]['targets'])
+
+
+def run_c(ctx, backend, h, out):
+    """executes a run-level history of the family `calcdep` through DoitMain; returns the ints observed;
+    findings of the three oracles are appended to out.c04_violations"""
+    from doit.doit_cmd import DoitMain
+    from doit.cmd_base import ModuleTaskLoader
+    w = c03.World(ctx, backend, 'c')
+    w.dep.close()
+    sh = CShadow()
+    defs = {t: EMPTY_C for t in range(NT)}
+    st = dict(order=list(range(NT)), fails=())
+    obs = []
+    prev = None
+
+    def mk(t):
+        d = defs[t]
+        acts = []
+        vals = {('u%d' % k): x for k, x in d['values']}
+        r = d['ret']
+        if r is not None:
+            if r['file_dep'] is not None:
+                vals['file_dep'] = [w.path(f) for f in r['file_dep']]
+            if r['task_dep'] is not None:
+                vals['task_dep'] = ['T%d' % x for x in r['task_dep']]
+            if r['uptodate'] is not None:
+                vals['uptodate'] = list(RET_UTD[r['uptodate']])
+
+        def first():
+            if t in st['fails']:
+                return False
+            return dict(vals) if vals else True
+
+        def final():
+            return True if d['result'] is None else 'res%d' % d['result']
+        acts = [(first,), (final,)]
+        res = {'actions': acts, 'file_dep': [w.path(f) for f in sorted(d['file_dep'])],
+               'targets': [w.path(f) for f in d['targets']], 'uptodate': [w.make_utd(tuple(u)) for u in d['uptodate']]}
+        if d['task_dep']:
+            res['task_dep'] = ['T%d' % x for x in d['task_dep']]
+        if d['calc_dep']:
+            res['calc_dep'] = ['T%d' % x for x in d['calc_dep']]
+        return res
+
+    def namespace():
+        cfg = {'dep_file': w.dbpath, 'backend': {'json': 'json', 'dbm': 'dbm', 'sqlite': 'sqlite3'}[backend],
+               'check_file_uptodate': 'md5' if w.ck == 'md5' else 'timestamp',
+               'reporter': GReporter, 'verbosity': 0, 'continue': True}
+        src = ''.join('def task_T%d():\n    return _mk(%d)\n' % (t, t) for t in st['order'])
+        path = os.path.join(ctx.subdir('cdodo'), 'dodo_%s.py' % ''.join(map(str, st['order'])))
+        if not os.path.exists(path):
+            with open(path, 'w') as fh:
+                fh.write(src)
+        ns = {'_mk': mk}
+        exec(compile(src, path, 'exec'), ns)
+        ns['DOIT_CONFIG'] = cfg
+        return {k: v for k, v in ns.items() if k.startswith('task_') or k == 'DOIT_CONFIG'}
+
+    def doit(args):
+        GReporter.log = []
+        buf = io.StringIO()
+        with contextlib.redirect_stdout(buf), contextlib.redirect_stderr(buf):
+            try:
+                rc = DoitMain(ModuleTaskLoader(namespace())).run(args)
+            except SystemExit:
+                rc = 90
+        return rc, list(GReporter.log), buf.getvalue()
+
+    def viol(what, shape, t, idx):
+        out.c04_violations.append(dict(what=what, shape=shape, case=dict(history=h, backend=backend, task=t, run=idx, family='calcdep')))
+
+    try:
+        for idx, o in enumerate(h):
+            k = o[0]
+            this = None
+            if k in ('Write', 'Touch'):
+                w.apply(o)
+                if w.not_fresh:
+                    sh.fresh = False
+            elif k == 'SetChecker':
+                w.ck = o[1]
+            elif k == 'Order':
+                if sorted(o[1]) == list(range(NT)):
+                    st['order'] = list(o[1])
+            elif k == 'CDef':
+                defs[o[1]] = o[2]
+            elif k == 'Forget':
+                doit(['forget', 'T%d' % o[1]])
+                sh.gone(o[1])
+            elif k == 'Ignore':
+                doit(['ignore', 'T%d' % o[1]])
+            elif k == 'Run':
+                sel, plain, par, fails = sel_of(o, st['order']), o[2], o[3], tuple(o[4])
+                st['fails'] = fails
+                args = ['run', '--continue'] + (['-n', '2', '-P', 'thread'] if par else []) + ([] if plain else ['T%d' % t for t in sel])
+                rc, log, txt = doit(args)
+                if rc not in (0, 1, 2):
+                    obs += [97, rc, -8]
+                    prev = None
+                    continue
+                executed, verdict, stale, pairs = set(), {}, {}, []
+                for ev, n in log:
+                    if n is None:
+                        continue
+                    t = int(n[1:])
+                    if ev == 'status':
+                        verdict.setdefault(t, sh.fresh and sh.complete(w, defs, t))
+                        stale.setdefault(t, sh.fresh and sh.must_run(w, defs, t))
+                    elif ev == 'execute':
+                        executed.add(t)
+                        if verdict.get(t):
+                            viol('runner executed a task although nothing changed since its last successful execution (declared and calculated file '
+                                 'deps, targets, declared and calculated uptodate items are as they were)', 'c04-unchanged-rerun-calcdep', t, idx)
+                    elif ev == 'success':
+                        pairs.append((t, 0 if t in executed else 96))
+                        sh.success(w, defs, t)
+                    elif ev == 'failure':
+                        pairs.append((t, 1 if t in executed else 4))
+                        sh.gone(t)
+                    elif ev == 'uptodate':
+                        pairs.append((t, 2))
+                        if stale.get(t):
+                            viol('a task was skipped as up-to-date although a file dependency it has (declared, or calculated by a calc_dep task) is '
+                                 'modified / its dependency set differs from the one its last successful execution saved', 'c04-calcdep-edit-not-rebuilt', t, idx)
+                    elif ev == 'ignore':
+                        pairs.append((t, 3))
+                if par:
+                    pairs.sort()
+                for t, c in pairs:
+                    obs += [t, c]
+                    out.count('c-decision:%d' % c)
+                obs.append(-8)
+                if (prev is not None and prev[0] == idx - 1 and tuple(prev[1][1:]) == tuple(o[1:]) and not fails
+                        and prev[2] == 0 and all(c in (0, 2) for _, c in prev[3]) and sh.fresh):
+                    out.count('c-repeat-judged')
+                    for t in sorted(executed):
+                        if never_uptodate_c(w, defs, sh, t):
+                            out.count('c-repeat-exec:never-up-to-date')
+                            continue
+                        viol('a run repeated immediately after a fully successful one executed a task that has a (declared or calculated) file_dep / '
+                             'uptodate item and can be up-to-date', 'c04-repeat-run-reexecuted-calcdep', t, idx)
+                    if not executed:
+                        out.count('c-repeat:no-op')
+                    if any(defs[t]['calc_dep'] and c == 2 for t, c in pairs):
+                        out.count('c-repeat:consumer-skipped')
+                for t, c in pairs:
+                    if defs[t]['calc_dep'] and c == 0 and t in stale and stale[t]:
+                        out.count('c-consumer-rebuilt-after-edit')
+                this = (idx, o, rc, pairs)
+            else:
+                raise ValueError(o)
+            prev = this
+        w.open()
+        try:
+            dump = w.dump() + [-6]
+            for t in range(NT):
+                vals = w.dep.get_values('T%d' % t)
+                for key, enc in (('file_dep', lambda x: c03.mask(w.fileno(p) for p in x)), ('task_dep', lambda x: c03.mask(int(n[1:]) for n in x)),
+                                 ('uptodate', lambda x: {False: 0, True: 1, None: 2}[x[0]] if len(x) == 1 else 95)):
+                    dump.append(enc(vals[key]) if key in vals else -2)
+        except Exception as e:  # noqa
+            dump = [97, len(type(e).__name__)]
+    finally:
+        w.finish()
+    return obs + [-7] + dump
+
+
+def scripted_c():
+    hs = []
+    allr = ('Run', [], True, False, [])
+
+    def sel(*ts):
+        return ('Run', list(ts), False, False, [])
+    for ck in ('md5', 'ts'):
+        S = [('SetChecker', ck), ('Write', 0, 0), ('Write', 1, 1), ('Write', 2, 2)]
+        P = C([1], ret=dict(file_dep=[2]))                         # provider with its own file_dep: can be up-to-date
+        P01 = C([1], ret=dict(file_dep=[0, 2]))
+        Pn = C([], ret=dict(file_dep=[2]))                         # never up-to-date: re-executes in every run
+        Cn = C([0], calc_dep=[1])
+        for order in ([1, 0, 2], [0, 1, 2]):                       # provider defined before / after the consumer
+            for runs in (allr, sel(0), sel(1, 0), sel(0, 1)):
+                # run, run again (nothing executes), edit the calculated file, run (consumer re-executes), run again, change what the
+                # provider returns while it stays up-to-date (old values keep being handed over), then make it re-execute
+                hs.append(S + [('Order', order), ('CDef', 0, Cn), ('CDef', 1, P), runs, runs, runs, ('Write', 2, 0), runs, runs,
+                               ('Touch', 2), runs, ('CDef', 1, P01), runs, runs, ('Write', 1, 3), runs, runs, ('Write', 0, 3), runs, runs])
+            hs.append(S + [('Order', order), ('CDef', 0, Cn), ('CDef', 1, Pn), allr, allr, ('Write', 2, 0), allr, allr, sel(1, 0), sel(1, 0)])
+            # consumer without declared file_dep: everything it depends on is calculated
+            hs.append(S + [('Order', order), ('CDef', 0, C([], calc_dep=[1])), ('CDef', 1, P), allr, allr, allr, ('Write', 2, 0), allr, allr,
+                           ('CDef', 1, C([1], ret=dict(file_dep=[]))), ('Write', 1, 3), allr, allr])
+            # calculated uptodate items and a calculated task_dep
+            hs.append(S + [('Order', order), ('CDef', 0, Cn), ('CDef', 1, C([1], ret=dict(file_dep=[2], task_dep=[2], uptodate=1))),
+                           ('CDef', 2, C([1], utd=[('run_once',)])), allr, allr, sel(0), sel(0), ('Write', 2, 0), sel(0), sel(0),
+                           ('CDef', 1, C([1], ret=dict(file_dep=[2], uptodate=0))), ('Write', 1, 3), allr, allr])
+            # two providers, a provider of the provider, forget / ignore / a failing provider
+            hs.append(S + [('Order', order), ('CDef', 0, C([], calc_dep=[1, 2])), ('CDef', 1, P), ('CDef', 2, C([0], ret=dict(file_dep=[1]))),
+                           allr, allr, sel(2, 1, 0), sel(2, 1, 0), ('Write', 1, 3), allr, allr])
+            hs.append(S + [('Order', order), ('CDef', 0, Cn), ('CDef', 1, C([1], calc_dep=[2], ret=dict(file_dep=[2]))),
+                           ('CDef', 2, C([0], ret=dict(file_dep=[0]))), allr, allr, sel(0), sel(0), ('Write', 0, 3), allr, allr])
+            hs.append(S + [('Order', order), ('CDef', 0, Cn), ('CDef', 1, P), allr, allr, ('Forget', 1), allr, allr, ('Forget', 0), allr, allr,
+                           ('Ignore', 1), allr, ('Forget', 1), allr, allr, ('Run', [], True, False, [1]), allr, allr])
+    return hs
+
+
+def gen_cdef(rng, t, lower, defs, role, tgt):
+    fd = rng.sample([0, 1], rng.choice([0, 1, 1, 1, 2]))
+    if role == 'provider' and not fd and rng.random() < 0.7:
+        fd = [rng.randrange(2)]
+    items = []
+    for _ in range(rng.choice([0, 0, 0, 1, 1, 2])):
+        if rng.random() < 0.15 and not any(u[0] == 'config' for u in items):
+            items.append(('config', rng.randrange(3)))
+        else:
+            items.append(rng.choice(ITEM_W))
+    ret = None
+    if role == 'provider' or rng.random() < 0.2:
+        files = [0, 1] if tgt else [0, 1, 2]
+        ret = dict(file_dep=sorted(rng.sample(files, rng.choice([0, 1, 1, 1, 2]))) if rng.random() < 0.9 else None,
+                   task_dep=[rng.choice(lower)] if (lower and rng.random() < 0.2) else None,
+                   uptodate=rng.choice([None, None, None, None, 1, 1, 2, 0]))
+    calc, tdep = [], []
+    if lower and (role == 'consumer' or rng.random() < 0.25):
+        calc = rng.sample(lower, rng.choice([1, 1, 1, 2]) if len(lower) > 1 else 1)
+    if lower and rng.random() < 0.15:
+        tdep = [rng.choice(lower)]
+    values = [(k, rng.choice([0, 1, 5, None])) for k in sorted(rng.sample(range(3), rng.choice([0, 0, 1])))]
+    return C(fd, [2] if (tgt and t == 0) else [], items, values, rng.choice([None, 0, 1, 2]), tdep, calc, ret)
+
+
+def gen_c(rng, ck, par, out):
+    order = rng.sample(range(NT), NT)
+    rank = rng.sample(range(NT), NT)              # rank[i] names only rank[j], j < i: no cycles
+    tgt = rng.random() < 0.12                     # file 2 is a target of T0 (then nobody calculates it)
+    h = [('SetChecker', ck), ('Order', order)]
+    content = {}
+    for f in (0, 1, 2):
+        content[f] = rng.randrange(5)
+        if f < 2 or not tgt or rng.random() < 0.7:
+            h.append(('Write', f, content[f]))
+    consumer = rank[-1] if rng.random() < 0.7 else rank[1]
+    defs = {}
+    for i, t in enumerate(rank):
+        role = 'consumer' if t == consumer else ('provider' if i < rank.index(consumer) else 'other')
+        defs[t] = gen_cdef(rng, t, rank[:i], defs, role, tgt)
+    provs = sorted(set(p for t in defs for p in defs[t]['calc_dep'])) or [rank[0]]
+    for t in sorted(defs, key=lambda x: rng.random()):
+        h.append(('CDef', t, defs[t]))
+
+    def a_run(fail_ok):
+        r = rng.random()
+        if r < 0.3:
+            sel, plain = [], True
+        elif r < 0.5:
+            sel, plain = [consumer], False
+        elif r < 0.7:
+            sel, plain = rng.choice([[provs[0], consumer], [consumer, provs[0]]]), False
+        else:
+            sel, plain = rng.sample(range(NT), rng.choice([1, 2, 2, 3])), False
+        fails = [rng.randrange(NT)] if (fail_ok and rng.random() < 0.07) else []
+        kind = 'plain' if plain else 'consumer-only' if sel == [consumer] else 'provider-first' if sel[0] in provs and consumer in sel else \
+            'consumer-first' if sel[0] == consumer and len(sel) > 1 else 'subset'
+        out.count('c-run:%s%s%s' % (kind, ':threads' if par else '', ':failing' if fails else ''))
+        return ('Run', sel, plain, par, fails)
+
+    def repeat(r):
+        h.append(r)
+        if not r[4] and rng.random() < 0.7:
+            h.append(r)
+
+    def redef(t, **kw):
+        defs[t] = dict(defs[t], **kw)
+        h.append(('CDef', t, defs[t]))
+
+    def write(f):
+        content[f] = rng.choice([c for c in range(5) if c != content[f]])
+        h.append(('Write', f, content[f]))
+
+    def new_ret(p):
+        files = [0, 1] if tgt else [0, 1, 2]
+        old = defs[p]['ret'] or dict(file_dep=None, task_dep=None, uptodate=None)
+        return dict(old, file_dep=sorted(rng.sample(files, rng.choice([0, 1, 1, 2]))), uptodate=rng.choice([old['uptodate'], None, 1]))
+
+    repeat(a_run(True))
+    for _ in range(rng.choice([1, 2, 2, 3])):
+        for _ in range(rng.choice([1, 1, 2])):
+            p = rng.choice(provs)
+            calc_files = sorted(set(f for q in provs for f in ((defs[q]['ret'] or {}).get('file_dep') or ())))
+            r = rng.random()
+            if r < 0.25 and calc_files:
+                kind = 'write-calculated-file'
+                write(rng.choice(calc_files))
+            elif r < 0.33:
+                kind = 'write'
+                write(rng.choice([0, 1] if tgt else [0, 1, 2]))
+            elif r < 0.41:
+                kind = 'touch-or-same-content'
+                f = rng.choice(calc_files or [0, 1])
+                h.append(('Touch', f) if rng.random() < 0.5 else ('Write', f, content[f]))
+            elif r < 0.53:
+                kind = 'provider-returns-other+reexecutes'
+                redef(p, ret=new_ret(p))
+                for f in defs[p]['file_dep'][:1]:
+                    write(f)
+            elif r < 0.63:
+                kind = 'provider-returns-other-only'
+                redef(p, ret=new_ret(p))
+            elif r < 0.73:
+                kind = 'redefine'
+                t = rng.choice(rank)
+                i = rank.index(t)
+                role = 'consumer' if t == consumer else ('provider' if t in provs else 'other')
+                defs[t] = gen_cdef(rng, t, rank[:i], defs, role, tgt)
+                h.append(('CDef', t, defs[t]))
+                provs[:] = sorted(set(q for x in defs for q in defs[x]['calc_dep'])) or [rank[0]]
+            elif r < 0.82:
+                kind = 'forget'
+                h.append(('Forget', rng.choice([p, consumer, rng.randrange(NT)])))
+            elif r < 0.85:
+                kind = 'ignore'
+                h.append(('Ignore', rng.randrange(NT)))
+            elif r < 0.91:
+                kind = 'order'
+                order = rng.sample(range(NT), NT)
+                h.append(('Order', order))
+            elif r < 0.95 and not par:
+                kind = 'checker'
+                ck = 'ts' if ck == 'md5' else 'md5'
+                h.append(('SetChecker', ck))
+            else:
+                kind = 'nothing'
+            out.count('c-edit:' + kind)
+        repeat(a_run(True))
+    last = a_run(False)
+    h += [last, last]
+    return h
+
+
+def c_key(h):
+    return 'c:' + json.dumps(h, sort_keys=True, default=str)
+
+
+def explore_c(ctx, out):
+    rng = ctx.rng
+    hs = [('scripted', h, False) for h in scripted_c()]
+    n, npar = ctx.n(51, 500), ctx.n(12, 120)
+    for i in range(n):
+        hs.append(('random', gen_c(rng, ('md5', 'md5', 'ts')[i % 3], False, out), False))
+    for i in range(npar):
+        hs.append(('threads', gen_c(rng, ('md5', 'ts')[i % 2], True, out), True))
+    cases = []
+    for i, (kind, h, par) in enumerate(hs):
+        # scripted histories: on all three backends in the thorough tier, round-robin in the quick tier
+        for b in (('json', 'dbm', 'sqlite') if (kind == 'scripted' and not ctx.quick) else (('json', 'dbm', 'sqlite')[i % 3],)):
+            try:
+                obs = run_c(ctx, b, h, out)
+            except Exception as e:  # noqa
+                obs = [97, len(type(e).__name__)]
+            out.count('c:' + kind + ':' + b)
+            if not par:
+                cases.append(dict(model=c_coq(h), expected=obs, desc=(kind, h, b)))
+        out.nontrivial.add(c_key(h))
+        for o in h:
+            out.count('c-op:' + o[0])
+    bad = common.compare_with_model(ctx, PRE_C, cases, tag='c04c')
+    for i, m in bad:
+        out.mismatches.append(dict(case=c_coq(cases[i]['desc'][1]), history=cases[i]['desc'][1], backend=cases[i]['desc'][2],
+                                   impl=cases[i]['expected'], model=m))
+    out.evaluations += len(cases) + npar
+    out.traces_validated += len(cases)
+    out.extra['calcdep_histories_through_DoitMain'] = dict(scripted=len(scripted_c()), scripted_backends=1 if ctx.quick else 3, random_serial=n, random_threads_oracle_only=npar)
+    if cases:
+        out.samples.append(dict(calcdep=c_coq(cases[0]['desc'][1]), observed=cases[0]['expected']))
+
+
+def shrink_c(ctx, out):
+    done = set()
+    for v in out.c04_violations:
+        case = v.get('case', {})
+        if v['shape'] in done or case.get('family') != 'calcdep' or 'unshrunk_history' in case:
+            continue
+        done.add(v['shape'])
+        try:
+            small = c03.shrink(ctx, case['backend'], case['history'], v['shape'], True, run_c, 150)
+        except Exception:
+            continue
+        case['unshrunk_history'] = case['history']
+        case['run_in_unshrunk_history'] = case.pop('run', None)
+        case['history'] = small
+        case['history_coq'] = c_coq(small)
+
+
+RULE_C = (' ++ family calcdep (harness/c04.py, model CalcDep.v): run-level histories over 3 tasks with calc_dep -- a consumer whose provider has its '
+          'own file_dep (it can be up-to-date and then hands over its SAVED values) and returns file_dep / task_dep / uptodate for the consumer, '
+          'provider defined before or after the consumer, plain `doit` / only the consumer / provider then consumer / consumer then provider / a '
+          'subset selected, runs repeated immediately, edits of calculated and declared files, the provider returning something else with and '
+          'without re-executing, two providers, a provider of a provider, forget / ignore / failing actions / checker switch -- through DoitMain '
+          '(serial on one of json/dbm/sqlite3 round-robin, scripted ones on all three; compared with crun of CalcDep.v) and with -n 2 -P thread '
+          '(oracles only); each distinct history counts as non-trivial')
 RULE_G = (' ++ family getargs (harness/c04.py, model Getargs.v): run-level histories over 3 tasks with getargs / explicit result_dep -- provider '
           'defined before or after the consumer, plain `doit` / only the consumer / a subset selected, the provider re-executing (file dep and result '
           'changed) as a setup-task or a task_dep, forget / ignore / failing actions, runs repeated immediately -- through DoitMain (serial on one of '
@@ -619,11 +1184,13 @@ RULE_G = (' ++ family getargs (harness/c04.py, model Getargs.v): run-level histo
 
 def run(ctx):
     out = Outcome()
-    out.rule = c03.RULE + RULE_G
+    out.rule = c03.RULE + RULE_G + RULE_C
     c03.explore(ctx, out)
     c03.explore_e2e(ctx, out)
     explore_g(ctx, out)
+    explore_c(ctx, out)
     shrink_g(ctx, out)
+    shrink_c(ctx, out)
     c03.shrink_findings(ctx, out, c03=False)
     c03_viol = out.violations
     out.violations = list(out.c04_violations) + [v for v in c03_viol if v['shape'] == 'checker-switch-typeerror']
@@ -633,16 +1200,34 @@ def run(ctx):
                        '(a record written by another checker is deleted by get_status: documented)',
                        'family getargs: result_dep / getargs on single tasks (no group tasks), acyclic, no implicit task_dep through targets; '
                        'threaded runs are judged by the oracles only (see known finding c08:getargs-consumer-check-not-ordered-after-source)']
+    out.assumptions.append('family calcdep: calc_dep providers return file_dep / task_dep / uptodate (bool or None items) only -- no calc_dep of calc_dep '
+                           'values, no result_dep items, no calculated file that is a target of another task (implicit task_dep), single tasks, acyclic; '
+                           'threaded runs are judged by the oracles only')
     out.extra['trusted_base'] = ['harness/c03.py: World, Shadow, encoders (shared with C03)',
-                                 'harness/c04.py: run_g (translation of run-level histories to doit command lines), GShadow and the repeat oracle']
+                                 'harness/c04.py: run_g / run_c (translation of run-level histories to doit command lines), GShadow / CShadow, '
+                                 'the repeat oracles and the edit oracle']
     out.extra['notes'] = ['getargs / result_dep over whole runs is modelled (coq/Model/Getargs.v, theorems C04_getargs_* of Properties/C04.v) AND '
-                          'judged by two implementation-side oracles (shadow on the reporter event order; immediate repeat of a fully successful run)']
+                          'judged by two implementation-side oracles (shadow on the reporter event order; immediate repeat of a fully successful run)',
+                          'calc_dep over whole runs is modelled too (coq/Model/CalcDep.v, a sibling of Getargs.v: the values a provider hands over are '
+                          'its in-memory task.values, set at selection time for an up-to-date provider -- runner.py 156; theorems C04_calcdep_* of '
+                          'Properties/C04.v: handed-over values = saved values whatever the dispatch order, saved dep set = declared + calculated, the '
+                          'second look, the whole repeated run is a no-op) AND judged by three implementation-side oracles that use neither the model '
+                          'nor the DB (shadow; immediate repeat of a fully successful run; an edit of a declared or calculated file_dep makes the task run)']
     return out
 
 
 def replay(ctx, payload):
     case = payload.get('case', {})
     h = case.get('history', [])
+    if any(o[0] == 'CDef' for o in h):
+        out = Outcome()
+        out.c04_violations = []
+        h = norm_c(h)
+        b = case.get('backend', 'json')
+        print(b, run_c(ctx, b, h, out))
+        for v in out.c04_violations:
+            print('VIOLATION', v['shape'], v['what'], 'task', v['case']['task'], 'run at operation', v['case']['run'])
+        return 1 if out.c04_violations else 0
     if any(o[0] == 'GDef' for o in h):
         out = Outcome()
         out.c04_violations = []
